@@ -562,3 +562,7 @@ def run(F, R, tier):
                 "by the regime condition" % (cname, nleaf), loc,
                 "%s returns a number for some negative argument: %s" % (cname, "; ".join(bad)[:300]), key="R5|" + cname)
     R.analysed["functions"] = sorted(closed)
+
+    # ---- K rules: the special-function kernels of gm2_dilog.cpp ------------------------------------------------------
+    from .kernels import run_kernels
+    run_kernels(F, R)
